@@ -141,6 +141,9 @@ int femmcli::LuaCommonCommands::luaAddArc(lua_State *L)
     CArcSegment asegm;
     asegm.n0 = doc->closestNode(sx,sy);
     asegm.n1 = doc->closestNode(ex,ey);
+    // a drawing without points has no closest node
+    if (asegm.n0 < 0 || asegm.n1 < 0)
+        return 0;
     doc->nodelist[asegm.n1]->ToggleSelect();
     //theView->DrawPSLG();
 
